@@ -10,26 +10,29 @@ C = {}
 def add(i, engine, cat, tech, text, note, ref):
     C[i] = dict(engine=engine, cat=cat, tech=tech, text=text, note=note, ref=ref)
 
+FAMILIES = (" Besides depth-bounded histories over small alphabets the scopes contain explicit families enumerated completely: MS-S scale (classes of 20..129 entries, "
+            "20..301 class lines, inline depth 31..100, names of 127..65537 bytes), MS-U character classes (105 special characters in every kind of name; sort pool pairs/triples; "
+            "synthetic-file name shapes), MS-R name relations, and the 7 corpus files.")
 MODEL_NOTE = ("Trusted: rustc/std; the reference model pgmc/src/model.rs (a re-statement of the property text evaluated on the "
               "generating AST - the oracle contains no parser); the AST printer. Bounded: alphabets and depths listed in the evidence "
               "file; data values outside the alphabets are not explored.")
 add("C01", "E1 mapspace", "model_checking", "bounded-exhaustive explicit-state exploration of mapping histories on the real code vs a reference model",
     "Every mapping history of the listed scopes (all line sequences up to the depth bound over alphabets of ranges/originals/classes/headers/noise) is "
     "built on the real mapper (with and without index) and the real cache writer+reader, and the complete line-based query universe of the history is "
-    "compared answer-for-answer with the reference model. Exhaustive within the stated bounds; nothing is sampled.", MODEL_NOTE, "DESIGN.md §4 C01")
+    "compared answer-for-answer with the reference model. Exhaustive within the stated bounds; nothing is sampled." + FAMILIES, MODEL_NOTE, "DESIGN.md §4 C01, §11.5")
 add("C03", "E1 mapspace", "model_checking", "bounded-exhaustive explicit-state exploration of mapping histories on the real code vs a reference model",
     "All histories up to depth 5 (13-line alphabet) / 4 (24-line alphabet) incl. repeated entries across re-declared classes, plus name tables up to 300 classes; "
-    "all (class, method, parameter-string) triples of each history's universe against mapper-with-index and cache vs model rule R10, mapper-without-index must be empty.",
+    "all (class, method, parameter-string) triples of each history's universe against mapper-with-index and cache vs model rule R10, mapper-without-index must be empty." + FAMILIES,
     MODEL_NOTE, "DESIGN.md §4 C03")
 add("C04", "E1 mapspace", "model_checking", "bounded-exhaustive explicit-state exploration of name tables on the real code vs a reference model",
     "All ordered selections of <=3 names (and subsets of 4-5) from a pool of 14 adversarially similar names as class tables and method tables, large-N tables up to 300 classes, "
-    "all block-bookkeeping histories up to depth 4; every name, near miss, empty and unknown string looked up; consistency clause checked on every line of the universe.",
+    "all block-bookkeeping histories up to depth 4; every name, near miss, empty and unknown string looked up; consistency clause checked on every line of the universe." + FAMILIES,
     MODEL_NOTE, "DESIGN.md §4 C04")
 
 add("C02", "E1 mapspace", "model_checking", "bounded-exhaustive exploration of mapping histories and token strings on the real code, differential oracle (mapper vs cache)",
     "Every mapping of every E1 scope, every string of <=5 (thorough 6) tokens over a 16-token alphabet that lies in the representable domain, and every class block of the 7 corpus files: "
     "the complete query universe (class, method, frames by line and by parameters, throwable, text and typed traces, signatures) is answered by the mapper, the mapper with index and the cache written and parsed back; "
-    "any difference is a violation. Exhaustive within the stated bounds.",
+    "any difference is a violation. Exhaustive within the stated bounds." + FAMILIES,
     "Trusted: rustc/std. No model involved. The domain filter for token strings and corpus files uses the implementation's own record iterator (itself checked by C05/C06).", "DESIGN.md §4 C02")
 
 add("C09", "E1 mapspace", "model_checking", "bounded-exhaustive exploration of mapping histories; every written file decoded by an independent decoder and compared with model-derived counts, orders and contents",
